@@ -14,7 +14,7 @@ CHECK = dict(
              "client calls - RegClient.BlobCopy, BlobPut from seekable / unseekable / failing-seek / streamed sources, BlobGet read to the end / closed "
              "early / closed by another goroutine, BlobHead, ManifestGet/Head/Put, TagList, ReferrerList - against 1-3 model registries (reqConcurrent "
              "-1/0/1/2/3, mirrors) and an OCI layout, with 0-4 generated faults (status 5xx/429/408/4xx, reset before/after, truncated bodies), some calls "
-             "cancelled before or at a request; engine 4 runs `regsync once` (in-package, NewRootCmd) with generated configs: 1-4 image/repository steps, "
+             "cancelled before or at a request; engine 5 runs 2-6 ocidir.BlobPut writers (gated source readers: the source being asked for data means the writer holds the slot of its path) on 1-2 layout paths with WithThrottle 1/2/3 or the default, WithGC on/off, under a generated controller script of start / Close(path) / finish / cancel actions; oracle: writers inside the throttled section of one path <= limit at every entry, every writer returns, `limit` fresh writers get in afterwards; engine 4 runs `regsync once` (in-package, NewRootCmd) with generated configs: 1-4 image/repository steps, "
              "parallel 0-3, ratelimit.min per entry or in defaults with a source whose manifest HEADs report RateLimit-Remaining above/below the minimum "
              "per a generated plan (release / sleep / re-acquire path; rateLimitRetryMin lowered from 5 min to 2 ms), a refresh answered 404, "
              "--abort-on-error, context cancelled at the k-th request; oracle: the command returns and rootOpts.throttle has `parallel` free slots. Non-trivial (engine 1) = the execution contained a cancellation racing with a release on the same queue (both enabled at one step, a "
@@ -28,6 +28,8 @@ CHECK = dict(
               # copy: thorough runs under the race detector (the data race it first reported in reghttp's sortHostsCmp
               # was repaired in /repo by 2a8301e)
               rapid("copy", "TestVerifCopy", 1_200, 40_000, sq=8, st=16, race=dict(quick=False, thorough=True), shrinktime="10s"),
+              # engine 5: the per-path write throttle of an OCI layout (ocidir.BlobPut) with Close calls in between
+              rapid("layout", "TestVerifLayout", 4_000, 150_000, sq=8, st=16, race=dict(quick=False, thorough=True), shrinktime="10s"),
               # engine 4: `regsync once` through NewRootCmd (in-package test of cmd/regsync, build tag c17)
               plain("syncreplay", "TestVerifC17SyncReplayDir", pkgdir="cmd/regsync", tags="verif,c17"),
               rapid("sync", "TestVerifC17Sync", 600, 20_000, sq=4, st=16, pkgdir="cmd/regsync", tags="verif,c17",
